@@ -1,5 +1,5 @@
 """C18 — the stack extension is gated by its feature flag, and only it."""
-import random
+import dbgcommon, dbggen, random
 import asmgen, asmcommon
 from lc3 import *
 from props import C03
@@ -7,8 +7,9 @@ from props import C03
 # parts of an assembly result the property does not speak about: a difference in these alone breaks the
 # correspondence but is not an input on which the property fails (reported with no-failing-input-found)
 AUX = ('bps', 'spans')
+AUX_DBG = ('cmds differs',)
 
-ASSUMPTIONS = ["the feature flag is set per harness thread through features::verif_force (the CLI's -f parsing is clap's)"]
+ASSUMPTIONS = ["the feature flag is set per harness thread through features::verif_force in the in-process runs; the real binary is run with and without -f stack for the command line's side (11 spellings) and for sessions under `lace debug`"]
 
 MNEMS = ["push", "pop", "call", "rets"]
 
@@ -79,6 +80,41 @@ def gen_vm(tier, seed):
     return cases, tags
 
 
+DBG_SRC = [
+    "and r1 r1 #0\nadd r1 r1 #5\npush r1\npop r2\ncall sub\nadd r0 r2 #0\nputn\nhalt\nsub add r2 r2 #1\nrets\n",
+    "add r0 r0 #1\n.fill xD040\nputn\nhalt\n",                       # a raw 0xD word (PUSH r1): assembles without the flag too
+    "lea r0 m\npush r0\npop r1\nadd r0 r1 #0\nputs\nhalt\nm .stringz \"ok\"\n",
+]
+
+
+def gen_dbg(tier, seed):
+    """The extension under the DEBUGGER: with the flag the four mnemonics execute in every mode the debugger has (free
+    running, single steps, after `reset`, through `eval`), without it a reached 0xD word stops the program the same way."""
+    rnd = random.Random(seed + 2)
+    scripts = [
+        [("continue",)],
+        [("reset",), ("continue",)],
+        [("step",), ("step",), ("step",), ("reset",), ("continue",)],
+        [("stepinto", 4), ("registers",), ("reset",), ("stepinto", 4), ("registers",), ("continue",)],
+        [("reset",), ("eval", "push r1"), ("registers",), ("eval", "pop r3"), ("registers",), ("continue",)],
+        [("continue",), ("reset",), ("continue",)],
+        [("step",), ("reset",), ("step",), ("reset",), ("step",), ("step",), ("step",), ("registers",), ("exit",)],
+        [("eval", "push r1"), ("reset",), ("eval", "push r1"), ("registers",), ("exit",)],
+        [("stepinto", 3), ("stepout",), ("registers",), ("reset",), ("stepinto", 5), ("stepout",), ("registers",), ("continue",)],
+    ]
+    specs = []
+    for src in DBG_SRC:
+        for feat in (0, 1):
+            for sc in scripts:
+                specs.append(("dbg-flag-on" if feat else "dbg-flag-off", feat, src, [], sc))
+    for _ in range(20 if tier == "quick" else 2000):
+        src = rnd.choice(DBG_SRC)
+        sc = [rnd.choice([("step",), ("stepinto", rnd.randrange(1, 6)), ("reset",), ("reset",), ("registers",), ("eval", "push r1"),
+                          ("eval", "pop r2"), ("eval", "rets"), ("stepout",), ("continue",)]) for _ in range(rnd.randrange(2, 9))]
+        specs.append(("dbg-random", rnd.choice([0, 1, 1]), src, [], sc + [rnd.choice([("continue",), ("exit",)])]))
+    return rnd, specs
+
+
 def correspondence(ctx, violations, known_hits):
     ca, ta = gen_asm(ctx.tier, ctx.seed)
     cv, tv = gen_vm(ctx.tier, ctx.seed)
@@ -112,9 +148,17 @@ def correspondence(ctx, violations, known_hits):
                                        "replay_kind": "C03"})
     cli = cli_flag(ctx, violations)
     ev += cli["runs"]
+    rnd, specs = gen_dbg(ctx.tier, ctx.seed)
+    dcases, dtags = dbgcommon.make_cases(rnd, specs)
+    rd = dbgcommon.run_dbg_cases(ctx, dcases, dtags, violations, ("debug",), aux=AUX_DBG,
+                                 note="model: with the flag the 0xD words execute under the debugger in every mode, also after reset and through eval (C18_vm_off / C02_exec under Dbg.v)")
+    real = dbgcommon.cli_cross(ctx, specs, violations, limit=(60 if ctx.tier == "quick" else 600), with_eval=True)
+    ev += rd["evaluations"] + real.get("sessions", 0)
     ctx.cleanup()
     return {
         "flag_on_the_command_line": cli,
+        "under_the_debugger": {"in_process": {"evaluations": rd["evaluations"], "mismatches": rd["mismatches"], "stop_kinds": rd["hist"]},
+                               "real_binary_without_hooks": real},
         "evaluations": r["evaluations"] + ev, "distinct_nontrivial": len(r["sigs"]) + len(sigs),
         "rule": "assembler: each of push/pop/call/rets in four letter cases x {used, in label position, referenced as a label, as an "
                 "operand, near-miss identifiers, inside comment/string} x flag off/on, plus random programs with/without the "
